@@ -1,12 +1,175 @@
 import Tpp.Driver.Proto
-/-! Driver slice `Markup`: model answers (`run`) and property oracle on the implementation's answers (`oracle`). -/
+import Tpp.Model.Markup
+import Tpp.Ref.Markup
+/-!
+Driver slice `Markup` (properties C10, C07 markup half; the element/to_string answers are also what C17 reads).
+
+Case lines (the text to decode is one hex word, `-` = empty):
+
+* `E <hex>`  `terminalpp::encode(span)`
+* `s <hex>`  `operator""_ets(ptr, len)`
+* `e <hex>`  `operator""_ete(ptr, len)`
+
+Answers (byte-identical between `harness/exec_markup.inc` and `run` below):
+
+* `E`, `s`:  `<n> ; <element> ; <element> … / <hex of to_string(result)>`  (n = number of elements)
+* `e`:       `<element>`
+
+where `<element>` is the shared 16-number encoding (`showElement`: glyph `cs b0 b1 b2` with only the
+*meaningful* bytes – `b1 b2` are printed as 0 for a non-UTF-8 glyph – then the attribute).
+
+Oracle configurations, all judged from `Tpp.Ref.Markup` only.  The configuration is written AFTER the hex
+word on the case line itself (`E <hex> S tok …`; executor and `run` ignore everything after the hex word), so
+that a replay file – which stores case lines – reproduces the oracle's verdict; the prefix form
+`O<cfg> | <case> # <real>` of `vlib/core.py` is accepted too and takes precedence:
+
+* (none)      every `E`/`s` answer must have `n ≤` input length (C07) and a consistent count; if the input
+              contains no backslash the elements must be `Ref.plainElement` of every byte (C10_plain);
+              an `e` answer on an input that does not start with a backslash must be the plain element of
+              the first byte (the default element for the empty input).
+* `S tok …`   the generator's list of `Ref.Spelling`s.  Tokens: directives `c<i>` (designator index 0–23),
+              `ib if in`, `pp pn`, `uu un`, `lf<d> lb<d>`, `hf<r><g><b> hb…`, `gf<n> gb<n>`,
+              `tf<6 hex chars> tb…` (the characters carry the letter case), `x`; a glyph token ends a
+              spelling: `L<byte>` literal, `C<byte>` `\Cnnn`, `U<4 hex chars>`.
+              The oracle checks that `flatMap print` of the list IS the input (otherwise the generator and
+              the specification disagree about the language – reported as a failure, never skipped) and
+              that the real elements are `Ref.denoteAll` of the list (for `e`: its first element).
+* `K n <16 numbers> …`  an `Expressible` element string; the input must be `Ref.canonical` of it and the
+              real elements must be that string (compared by meaningful values = the library's `==`).
+-/
 namespace Tpp.Driver.Markup
 open Tpp Tpp.Driver
 
+def showString (es : List Element) : String :=
+  let parts := toString es.length :: es.map showElement
+  " ; ".intercalate parts ++ " / " ++ hex (Tpp.Markup.toStringBytes es)
+
 /-- model answer for a case line of this slice; `none` when the kind is not ours -/
-def run (_kind : Char) (_rest : String) : Option String := none
+def run (kind : Char) (rest : String) : Option String :=
+  let text := unhex ((words rest).headD "-")
+  match kind with
+  | 'E' => some (showString (Tpp.Markup.encode text))
+  | 's' => some (showString (Tpp.Markup.encode text))
+  | 'e' => some (showElement (Tpp.Markup.ete text))
+  | _ => none
+
+/-! ### configuration parsing (spec-side values only) -/
+
+def hexOfChar (c : Char) : Option Ref.Hex :=
+  if '0' ≤ c ∧ c ≤ '9' then some { v := Fin.ofNat 16 (c.toNat - 48), upper := true }
+  else if 'a' ≤ c ∧ c ≤ 'f' then some { v := Fin.ofNat 16 (c.toNat - 87), upper := false }
+  else if 'A' ≤ c ∧ c ≤ 'F' then some { v := Fin.ofNat 16 (c.toNat - 55), upper := true }
+  else none
+
+def layerOf (c : Char) : Option Ref.Layer := if c = 'f' then some .fg else if c = 'b' then some .bg else none
+
+def finOf (n : Nat) (s : String) : Option (Fin n) :=
+  match s.toNat? with
+  | some v => if h : v < n then some ⟨v, h⟩ else none
+  | none => none
+
+def digitFin (n : Nat) (c : Char) : Option (Fin n) := finOf n (String.singleton c)
+
+inductive Tok | dir (d : Ref.Directive) | gly (g : Ref.GlyphSp)
+
+def parseTok (t : String) : Option Tok :=
+  match t.toList with
+  | ['x'] => some (.dir .reset)
+  | ['i', 'b'] => some (.dir (.intensity .bold))
+  | ['i', 'f'] => some (.dir (.intensity .faint))
+  | ['i', 'n'] => some (.dir (.intensity .normal))
+  | ['p', 'p'] => some (.dir (.polarity .positive))
+  | ['p', 'n'] => some (.dir (.polarity .negative))
+  | ['u', 'u'] => some (.dir (.underlining .underlined))
+  | ['u', 'n'] => some (.dir (.underlining .notUnderlined))
+  | 'c' :: r => (finOf 24 (String.ofList r)).map fun d => .dir (.charset d)
+  | ['l', l, d] => do let l ← layerOf l; let d ← digitFin 10 d; return .dir (.low l d)
+  | ['h', l, r, g, b] => do
+    let l ← layerOf l; let r ← digitFin 6 r; let g ← digitFin 6 g; let b ← digitFin 6 b
+    return .dir (.high l r g b)
+  | 'g' :: l :: r => do let l ← layerOf l; let n ← finOf 24 (String.ofList r); return .dir (.grey l n)
+  | ['t', l, a, b, c, d, e, f] => do
+    let l ← layerOf l
+    let a ← hexOfChar a; let b ← hexOfChar b; let c ← hexOfChar c
+    let d ← hexOfChar d; let e ← hexOfChar e; let f ← hexOfChar f
+    return .dir (.rgb l a b c d e f)
+  | 'L' :: r => (finOf 256 (String.ofList r)).map fun v => .gly (.lit (UInt8.ofNat v.val))
+  | 'C' :: r => (finOf 256 (String.ofList r)).map fun v => .gly (.code (UInt8.ofNat v.val))
+  | ['U', a, b, c, d] => do
+    let a ← hexOfChar a; let b ← hexOfChar b; let c ← hexOfChar c; let d ← hexOfChar d
+    return .gly (.uni a b c d)
+  | _ => none
+
+/-- tokens → spellings; `none` on an unknown token or on trailing directives without a glyph -/
+def parseSpellings : List String → List Ref.Directive → Option (List Ref.Spelling)
+  | [], acc => if acc.isEmpty then some [] else none
+  | t :: ts, acc =>
+    match parseTok t with
+    | none => none
+    | some (.dir d) => parseSpellings ts (d :: acc)
+    | some (.gly g) => (parseSpellings ts []).map fun r => { directives := acc.reverse, glyph := g } :: r
+
+/-- the element part of an `E`/`s` answer: (declared count, element strings) -/
+def splitAnswer (real : String) : Nat × List String :=
+  let left := (real.splitOn " / ").headD ""
+  match left.splitOn " ; " with
+  | [] => (0, [])
+  | n :: es => (n.trimAscii.toString.toNat?.getD 0, es.map fun e => e.trimAscii.toString)
+
+def firstDiff : List String → List String → Nat → Option (Nat × String × String)
+  | [], [], _ => none
+  | a :: as, b :: bs, i => if a = b then firstDiff as bs (i + 1) else some (i, a, b)
+  | [], b :: _, i => some (i, "<end>", b)
+  | a :: _, [], i => some (i, a, "<end>")
+
+def compareElements (what : String) (expected : List Element) (got : List String) : String :=
+  match firstDiff (expected.map showElement) got 0 with
+  | none => "ok"
+  | some (i, a, b) => s!"FAIL C10 {what}: element {i} expected [{a}] got [{b}]"
 
 /-- oracle verdict (`ok` / `FAIL <ids> …`) given the case, the configuration prefix and the real answer -/
-def oracle (_kind : Char) (_cfg _rest _real : String) : Option String := none
+def oracle (kind : Char) (cfg rest real : String) : Option String :=
+  if kind ≠ 'E' ∧ kind ≠ 's' ∧ kind ≠ 'e' then none else
+  let ws := words rest
+  let text := unhex (ws.headD "-")
+  -- the configuration travels with the case line (so that a replay file, which stores case lines only,
+  -- reproduces the verdict); a non-empty prefix configuration overrides it
+  let cfgw := if (words cfg).isEmpty then ws.drop 1 else words cfg
+  some <|
+  if kind = 'e' then
+    let got := [real.trimAscii.toString]
+    match cfgw with
+    | "S" :: toks =>
+      match parseSpellings toks [] with
+      | none => "FAIL C10 oracle: unreadable spelling configuration"
+      | some sps =>
+        if sps.flatMap Ref.Spelling.print ≠ text then "FAIL C10 oracle: generator spelling does not print to the input"
+        else compareElements "_ete of a spelling" [(Ref.denoteAll sps).headD {}] got
+    | [] =>
+      match text with
+      | [] => compareElements "_ete of the empty text" [({} : Element)] got
+      | b :: _ => if b = 0x5C then "ok" else compareElements "_ete of plain text" [Ref.plainElement b] got
+    | _ => "ok"
+  else
+    let (n, got) := splitAnswer real
+    if n ≠ got.length then s!"FAIL C07 C10 answer count {n} but {got.length} elements printed"
+    else if n > text.length then s!"FAIL C07 markup decoder yields {n} elements for {text.length} input characters"
+    else
+    match cfgw with
+    | "S" :: toks =>
+      match parseSpellings toks [] with
+      | none => "FAIL C10 oracle: unreadable spelling configuration"
+      | some sps =>
+        if sps.flatMap Ref.Spelling.print ≠ text then "FAIL C10 oracle: generator spelling does not print to the input"
+        else compareElements "decode of spellings" (Ref.denoteAll sps) got
+    | "K" :: nums =>
+      let (es, _) := (do let k ← Rd.num; rdElements k : Rd (List Element)).run nums
+      if es.any (fun e => !Ref.expressible e) then "FAIL C10 oracle: element string is not Expressible"
+      else if Ref.canonical es ≠ text then "FAIL C10 oracle: input is not Ref.canonical of the element string"
+      else compareElements "decode of canonical markup" es got
+    | [] =>
+      if text.contains 0x5C then "ok"
+      else compareElements "plain text" (text.map Ref.plainElement) got
+    | _ => "ok"
 
 end Tpp.Driver.Markup
